@@ -402,6 +402,38 @@ def check_program(ctx, rng, kind, fields, modes, recipe_extra=(), skip=()):  # n
                 shared = _shared_mutable(kind, fields, results[0], results[1], given)
                 if shared:
                     ctx.violation(f"default-shared-between-loads:{kind}", f"{kind} model: two loads share the mutable default object of field {shared}", {**desc, "data": repr(data)})
+                # mutable default VALUES (tags=[] of a hand-written __init__, NamedTuple, attrs): after a caller has edited what an earlier load
+                # returned, the next load still holds what the model itself produces NOW (seeded change: the value was hoisted into a constant of
+                # the loader - one object for all loads that is not the model's own default object)
+                edited = []
+                v0 = _view(kind, fields, results[0])
+                for f in fields:
+                    if f.name in given or f.req != "default" or not isinstance(v0[f.name], _MUT):
+                        continue
+                    obj0 = v0[f.name]
+                    if isinstance(obj0, list):
+                        obj0.append("edited-by-caller")
+                    elif isinstance(obj0, dict):
+                        obj0["edited-by-caller"] = 1
+                    elif isinstance(obj0, set):
+                        obj0.add("edited-by-caller")
+                    else:
+                        obj0.extend(b"!")
+                    edited.append(f.name)
+                if edited:
+                    LOG.clear()
+                    FACTORY_CALLS.clear()
+                    third = attempt(ld.value, dict(data))
+                    try:
+                        own_now = _construct(target, kind, fields, given)
+                    except Exception:  # noqa: BLE001
+                        own_now = None
+                    ctx.count("loads_after_editing_an_earlier_result")
+                    if third.kind == "ok" and own_now is not None:
+                        bad = _diff(kind, fields, third.value, own_now)
+                        if bad is not None and bad[0] in edited:
+                            ctx.violation(f"default-value-changed-after-editing-an-earlier-result:{kind}", f"{kind} model, field {bad[0]} (absent): after a caller edited the value an earlier load "
+                                          f"returned, a new load holds {bad[1]!r}, the model itself produces {bad[2]!r}", {**desc, "data": repr(data)})
 
 
 def _input_for(f):
